@@ -489,3 +489,72 @@ def r_shared(P, R):
             f'{n} assignment(s) to a table attribute, none from the '
             'table of another manager', nontrivial=False)
 r_shared.NAME = 'R-ALIAS-SHARED'
+
+
+def r_loopflag(P, R):
+    """A flag that is reset before an inner loop, assigned in it, and then
+    decides an early exit has to ACCUMULATE over the iterations (`flag =
+    True` under a condition, `flag = flag or c`, `flag |= c`).  A flag
+    that is overwritten by every iteration (`flag = c`) remembers the last
+    iteration only: the exit is taken although earlier iterations did
+    work."""
+    n = 0
+    for f in sorted(P.all_funcs(MODS), key=lambda f: f.qualname):
+        if not in_scope(P, R, f):
+            continue
+        for blk in au.blocks_of(f.node):
+            for k, inner in enumerate(blk):
+                if not isinstance(inner, (ast.For, ast.While)):
+                    continue
+                # flags reset (to a Boolean constant) before the loop in
+                # the same block
+                flags = {}
+                for s in blk[:k]:
+                    if isinstance(s, ast.Assign) and len(
+                            s.targets) == 1 and isinstance(
+                                s.targets[0], ast.Name) and isinstance(
+                                    s.value, ast.Constant) and isinstance(
+                                        s.value.value, bool):
+                        flags[s.targets[0].id] = s
+                if not flags:
+                    continue
+                # deciding reads after the loop
+                deciding = set()
+                for s in blk[k + 1:]:
+                    if isinstance(s, ast.If) and any(
+                            isinstance(x, (ast.Break, ast.Return,
+                                           ast.Continue))
+                            for b in (s.body, s.orelse) for st in b
+                            for x in ast.walk(st)):
+                        deciding |= {x.id for x in ast.walk(s.test)
+                                     if isinstance(x, ast.Name)}
+                for name in sorted(set(flags) & deciding):
+                    n += 1
+                    over = None
+                    for s in inner.body:     # unconditional statements
+                        if isinstance(s, ast.Assign) and len(
+                                s.targets) == 1 and au.is_name(
+                                    s.targets[0], name) and not isinstance(
+                                        s.value, ast.Constant) and not any(
+                                            au.is_name(x, name)
+                                            for x in ast.walk(s.value)):
+                            over = s
+                    if over is not None:
+                        R.violation(
+                            'R-LOOPFLAG', 'last-iteration-only',
+                            f.qualname, name,
+                            f'`{au.short(over, 50)}` overwrites the flag '
+                            f'`{name}` in every iteration of the loop at '
+                            f'line {inner.lineno}; the early exit after '
+                            'the loop therefore depends on the last '
+                            'iteration only and is taken although earlier '
+                            'iterations did work', unit=f.unit.rel,
+                            line=over.lineno)
+                    else:
+                        R.holds('R-LOOPFLAG', f.qualname,
+                                f'flag `{name}` accumulates over the '
+                                f'loop at line {inner.lineno}')
+    R.holds('R-LOOPFLAG', f'functions behind {R.prop}',
+            f'{n} flag(s) deciding an early exit after a loop',
+            nontrivial=False)
+r_loopflag.NAME = 'R-LOOPFLAG'
